@@ -5,8 +5,19 @@ invariant and type-checked by the real library; verdicts compared with Convex (t
 import json, os
 import vf, batch
 
-LEAF = {"p": "i < 3", "b": "b", "lt": "x < 3", "le": "x <= 3", "gt": "x > 3", "ge": "x >= 3", "eq": "x == 3",
-        "ne": "x != 3", "dlt": "x - y < 3", "dge": "x - y >= 3", "deq": "x - y == 3", "ilt": "3 < x"}
+RELOP = {"lt": "<", "le": "<=", "gt": ">", "ge": ">=", "eq": "==", "ne": "!="}
+
+
+def leaf(l):
+    op, od, orr = l
+    if op == "p":
+        return "i < 3"
+    if op == "b":
+        return "b"
+    operand = "x" if od == "c" else "x - y"
+    return "%s %s 3" % (operand, RELOP[op]) if orr == "l" else "3 %s %s" % (RELOP[op], operand)
+
+
 BIN = {"and": "&&", "or": "||", "imply": "imply", "xor": "xor", "eqq": "==", "neq": "!="}
 DECL = "clock x, y;\nint i;\nbool b;\n"
 RANK = {"BOOL": 0, "INV": 1, "GUARD": 2, "CONSTR": 3, "ERR": 9}
@@ -14,7 +25,7 @@ RANK = {"BOOL": 0, "INV": 1, "GUARD": 2, "CONSTR": 3, "ERR": 9}
 
 def render(t, depth=0):
     if len(t) == 1:
-        return LEAF[t[0]]
+        return leaf(t[0])
     if len(t) == 2:
         a = render(t[1], depth + 1)
         if t[0] == "not":
